@@ -18,6 +18,7 @@ CONSTANTS
   MaxDup = 1
   MaxQ = 8
   MaxTO = 1
+  PROMPT = FALSE
 INVARIANTS
   TypeOK
   Integrity
